@@ -61,7 +61,7 @@ size_t _mi_strlen(const char* s) {
 size_t _mi_strnlen(const char* s, size_t max_len) {
   if (s==NULL) return 0;
   size_t len = 0;
-  while(s[len] != 0 && len < max_len) { len++; }
+  while(len < max_len && s[len] != 0) { len++; }  // test the bound first: never read `s[max_len]`
   return len;
 }
 
